@@ -337,7 +337,12 @@ class Pool():
                         except:
                             time.sleep(0.1)
                             if not worker.is_alive():
-                                handle_death(worker, 'while enqueueing')
+                                if self._pending_per_worker[worker.id]:
+                                    # results of the previous inputs and/or the closing message might still be waiting
+                                    # in the worker's queue - its death (and what should be retried) is handled when they are read
+                                    logger.warning('{} died while enqueueing but still has unread messages - postponing handling of its death', worker)
+                                else:
+                                    handle_death(worker, 'while enqueueing')
                                 handle_unused_data(inp, from_retries)
                                 return True
                             else:
